@@ -12,10 +12,23 @@ RULE = (
     "slices, projections, deduplication, selections, calculation, plus chain / join / materialization as probes for the "
     "refusal) up to the depth bound, in both physical scan orders; whenever the reference says the root order is "
     "determined (a total sort followed only by what C11 promises keeps it) the fetched row LIST must equal the "
-    "reference list, and a following slice is judged as a determinate window; whenever the reference predicts a sort "
+    "reference list (statements whose ORDER BY sits only in a subquery are counted), and a following slice is judged as a determinate window; whenever the reference predicts a sort "
     "without a later slice buried under join/chain/materialization the call must raise; non-trivial = the comparison "
     "was a list comparison or a refusal probe; distinct = distinct (tree, row list) digests"
 )
+
+
+def top_level_order_by(text):
+    """True if the statement carries an ORDER BY outside every parenthesis."""
+    depth, out = 0, []
+    for ch in text:
+        if ch == "(":
+            depth += 1
+        elif ch == ")":
+            depth -= 1
+        elif depth == 0:
+            out.append(ch)
+    return "ORDER BY" in "".join(out).upper()
 
 
 class C11(Check):
@@ -71,6 +84,13 @@ class C11(Check):
             tr.count("list_comparisons")
             if tr.op[0] == "slice":
                 tr.count("determinate_slice_windows")
+            # Informational only: the promised order is *requested* from the database only by an ORDER BY of the
+            # outermost query.  After sort -> slice -> deduplication the engine leaves it in the subquery
+            # (SELECT DISTINCT .. FROM (.. ORDER BY .. LIMIT ..)); C11 quantifies over the two scan orders of
+            # the real database, on which the rows do come back in order, so this is counted, not judged
+            # (DESIGN 7.4, round 5).
+            if not top_level_order_by(obs.text) and len(val.rows) > 1:
+                tr.count("order_promised_but_only_a_subquery_is_sorted")
         else:
             tr.count("order_not_promised:" + ("ambiguous" if val.amb else "bag"))
         for i, got in enumerate(obs.rows):
